@@ -83,4 +83,105 @@ theorem symbol_line_fields (name : String) (v : Int) :
 example : symbolLine "start" 0x018000 = " 1:8000 start" := by decide +kernel
 example : symbolFile [("a", 0x008000), ("b", 0x7E0010)] = "[labels]\n 0:8000 a\n7e:  10 b\n" := by decide +kernel
 
+/-! ## which labels the symbol file lists (`Resolver.get_all_labels`) -/
+
+/-- **every label defined outside loop iterations is listed**: a label of a scope that is not a loop-iteration scope -/
+theorem label_listed (r : Resolver) (k : Nat) (hk : k < r.scopes.size) (hin : (r.scopeAt k).kind ≠ .internal)
+    (n : String) (v : Int) (h : (n, v) ∈ (r.scopeAt k).labels) : (n, v) ∈ r.allLabels := by
+  unfold Resolver.allLabels
+  rw [List.mem_flatMap]
+  have hs : r.scopeAt k = r.scopes[k] := by
+    unfold Resolver.scopeAt
+    rw [Array.getD_eq_getD_getElem?, Array.getElem?_eq_getElem hk]; rfl
+  refine ⟨r.scopes[k], by simp, ?_⟩
+  rw [hs] at hin h
+  have : (r.scopes[k].kind == ScopeKind.internal) = false := by simpa using hin
+  rw [this]
+  exact h
+
+/-- **nothing else is listed**: every listed (name, value) is a label of a scope that is not a loop iteration -/
+theorem listed_is_label (r : Resolver) (n : String) (v : Int) (h : (n, v) ∈ r.allLabels) :
+    ∃ k, k < r.scopes.size ∧ (r.scopeAt k).kind ≠ .internal ∧ (n, v) ∈ (r.scopeAt k).labels := by
+  unfold Resolver.allLabels at h
+  rw [List.mem_flatMap] at h
+  obtain ⟨s, hs, hm⟩ := h
+  obtain ⟨k, hk, rfl⟩ := List.getElem_of_mem hs
+  have hk' : k < r.scopes.size := by simpa using hk
+  have hsk : r.scopeAt k = r.scopes.toList[k] := by
+    unfold Resolver.scopeAt
+    rw [Array.getD_eq_getD_getElem?, Array.getElem?_eq_getElem hk']; simp
+  refine ⟨k, hk', ?_, ?_⟩
+  · rw [hsk]
+    intro hc
+    rw [hc] at hm
+    simp at hm
+  · rw [hsk]
+    split at hm
+    · cases hm
+    · exact hm
+
+/-- labels of one scope with pairwise different names: a (name, value) pair occurs at most once -/
+theorem count_pair_le_one : ∀ (l : List (String × Int)), (l.map Prod.fst).Nodup → ∀ (n : String) (v : Int),
+    l.count (n, v) = if (n, v) ∈ l then 1 else 0 := by
+  intro l
+  induction l with
+  | nil => intro _ n v; simp
+  | cons a l ih =>
+    intro hnd n v
+    simp only [List.map_cons, List.nodup_cons] at hnd
+    rw [List.count_cons, ih hnd.2 n v]
+    by_cases ha : a = (n, v)
+    · subst ha
+      have : (n, v) ∉ l := fun hm => hnd.1 (List.mem_map_of_mem (f := Prod.fst) hm)
+      simp [this]
+    · have h1 : (a == (n, v)) = false := by simpa using ha
+      have h2 : ((n, v) ∈ a :: l) ↔ (n, v) ∈ l := by
+        simp only [List.mem_cons]
+        constructor
+        · rintro (h | h)
+          · exact absurd h.symm ha
+          · exact h
+        · exact Or.inr
+      simp only [h1, Bool.false_eq_true, ↓reduceIte, Nat.add_zero]
+      by_cases hm : (n, v) ∈ l
+      · rw [if_pos hm, if_pos (h2.mpr hm)]
+      · rw [if_neg hm, if_neg (fun h => hm (h2.mp h))]
+
+/-- **each definition once**: when the labels of every scope have pairwise different names (a scope defines a name once:
+    a second definition is refused, C02), the number of lines for a (name, value) pair is the number of non-iteration
+    scopes that define that label with that value — one line per definition, none for loop iterations -/
+theorem listed_once (scopes : List ScopeRec) (hnd : ∀ s ∈ scopes, (s.labels.map Prod.fst).Nodup) (n : String) (v : Int) :
+    (scopes.flatMap fun s => if s.kind == .internal then [] else s.labels).count (n, v) =
+      (scopes.filter fun s => s.kind != .internal && decide ((n, v) ∈ s.labels)).length := by
+  induction scopes with
+  | nil => rfl
+  | cons s ss ih =>
+    rw [List.flatMap_cons, List.count_append, ih (fun x hx => hnd x (List.mem_cons_of_mem _ hx)), List.filter_cons]
+    by_cases hk : s.kind = .internal
+    · simp [hk]
+    · have h1 : (s.kind == ScopeKind.internal) = false := by simpa using hk
+      have h2 : (s.kind != ScopeKind.internal) = true := by simp [bne, h1]
+      rw [h1, h2]
+      simp only [Bool.false_eq_true, ↓reduceIte, Bool.true_and]
+      rw [count_pair_le_one s.labels (hnd s List.mem_cons_self) n v]
+      by_cases hm : (n, v) ∈ s.labels
+      · simp [hm]; omega
+      · simp [hm]
+
+theorem all_labels_once (r : Resolver) (hnd : ∀ s ∈ r.scopes.toList, (s.labels.map Prod.fst).Nodup) (n : String) (v : Int) :
+    r.allLabels.count (n, v) =
+      (r.scopes.toList.filter fun s => s.kind != .internal && decide ((n, v) ∈ s.labels)).length :=
+  listed_once r.scopes.toList hnd n v
+
+/-- the file: the header, then one line per listed label in scope order, each with the bank and offset of the value -/
+theorem symbol_file_lines (labels : List (String × Int)) :
+    symbolFile labels = "[labels]\n" ++ String.join (labels.map fun p => symbolLine p.1 p.2 ++ "\n") := rfl
+
+/-- non-vacuity / a test: two scopes defining `l` (one of them a loop iteration) and a named scope -/
+example : (Resolver.allLabels { (default : Resolver) with scopes := #[
+    { kind := .plain, parent := none, labels := [("l", 0x8000), ("m", 0x8002)] },
+    { kind := .internal, parent := some 0, labels := [("l", 0x8004)] },
+    { kind := .named "s", parent := some 0, labels := [("l", 0x8006)] }] }) =
+  [("l", 0x8000), ("m", 0x8002), ("l", 0x8006)] := by decide +kernel
+
 end A816.C12
